@@ -1,5 +1,7 @@
 """Source of truth for MANIFEST.json (run ./gen_manifest.py after editing)."""
 ENGINES = [
+    {"name": "schedx (E3)", "path": "vlib/schedx.py", "serves_properties": ["C17", "C13", "C07"], "kind_free_text": "stateless CHESS-style explorer: real threads under a baton scheduler, scheduling points = sys.settrace line events in chosen code objects + model locks + explicit gates, preemption-bounded DFS over choice prefixes"},
+    {"name": "seqx BFS + schedx (E3/E4)", "path": "vlib/props/c17.py", "serves_properties": ["C17"], "kind_free_text": "BFS to fixpoint over operation histories with canonical state keys; schedule exploration"},
     {"name": "c11 (chain x hook tables vs reference loop)", "path": "vlib/props/c11.py", "serves_properties": ["C11"], "kind_free_text": "exhaustive chains of managers x hook tables, reference loop replayed on fill_context/extract"},
     {"name": "c12 (towers, nestings, customize product, IdentityDict BFS)", "path": "vlib/props/c12.py", "serves_properties": ["C12"], "kind_free_text": "explicit-state search of IdentityDict vs model + exhaustive wrapper towers / nestings / flag products"},
     {"name": "chainspace (E2)", "path": "vlib/chainspace.py", "serves_properties": ["C03", "C16", "C06"], "kind_free_text": "all await/yield-from/asend/athrow/aclose/async-for chains up to length N, rebuilt and advanced to every suspension point"},
@@ -11,6 +13,13 @@ ENGINES = [
 NOTES = "All checks are bounded-exhaustive explorations of the real implementation (no sampling); see DESIGN.md."
 NOT_APPLICABLE = {}
 CHECKS = {
+    "C17": {
+        "engine": "seqx BFS + schedx (E3/E4)",
+        "category": "model_checking",
+        "technique": "explicit-state BFS to a fixpoint over sys.modules histories with a reference model (every transition replayed on the real library) + stateless preemption-bounded schedule exploration of real threads inside add_glue_as_needed",
+        "text": "Sequential: for every assignment of 6 glue kinds to 3 synthetic modules the reachable state space of add/remove/re-add/extract histories is explored to a fixpoint, rebuilding each state on the real library; each extract must run exactly the glue the reference expects (once per module object, built-in at most once and never beside module glue, raising glue only warns). Concurrent: all schedules of 2-3 extracting threads (+ an environment thread) with <= B preemptions at line granularity; no double run, never both kinds, the first extraction after a module appeared does not return before its glue ran, no deadlock.",
+        "note": "Loop iterations of add_glue_as_needed over non-synthetic modules are executed atomically (they touch no scenario state); glue_lock is replaced by a scheduler-aware lock; canonical state includes the O(1) cache contents read from the function's keyword defaults.",
+    },
     "C11": {
         "engine": "c11 (chain x hook tables vs reference loop)",
         "category": "model_checking",
